@@ -322,6 +322,23 @@ static void encode_imm_operation(struct instr *instrc) {
     instrc->key++;
 }
 
+/**
+ * mode bits for the width of the first operand of @param instrc: a memory
+ * operand is as wide as its size keyword says (its base register is not)
+ */
+unsigned int opd0_width_mode(struct instr *instrc) {
+  if (instrc->mem_disp && instrc->mem_index == FIRST_OPERAND) {
+    if (instrc->keyword.is_byte)
+      return noext8;
+    if (instrc->keyword.is_word)
+      return reg16;
+    if (instrc->keyword.is_dword)
+      return reg32;
+    return reg64;
+  }
+  return instrc->opd[0].reg & MODE_MASK;
+}
+
 void encode_imm(struct instr *instrc) {
   // change op offset based on reg and imm size
   if (!instrc->imm)
@@ -358,14 +375,14 @@ void encode_imm(struct instr *instrc) {
   } else if (TYPE(instrc->key, DATA_TRANSFER))
     encode_imm_data_transfer(instrc);
   // mask all bits except for the most significant byte
-  if ((instrc->opd[0].reg & MODE_MASK) < reg32) {
+  unsigned int opd0_mode = opd0_width_mode(instrc);
+  if (opd0_mode < reg32) {
     DO_NOT_PAD(instrc->cons, instrc->reduced_imm, MAX_UNSIGNED_16BIT);
-    if (((instrc->opd[0].reg & MODE_MASK) == reg16 ||
-         (instrc->opd[0].reg & MODE_MASK) == ext16) &&
+    if ((opd0_mode == reg16 || opd0_mode == ext16) &&
         instrc->cons <= MAX_UNSIGNED_8BIT)
       instrc->reduced_imm = false;
   }
-  if ((instrc->opd[0].reg & MODE_MASK) < reg16) {
+  if (opd0_mode < reg16) {
     DO_NOT_PAD(instrc->cons, instrc->reduced_imm, MAX_UNSIGNED_8BIT);
   }
 }
